@@ -164,6 +164,19 @@ func runC14Value(p c14Value, c *stats.Case) error {
 		c.NT("over-limit")
 		if err != nil {
 			c.Class("over-limit:encode-fails")
+			// the decoder must enforce the limit by itself: feed it what an encoder without limits emits
+			if w.fill == nil {
+				ref := refEncode(obj)
+				back := w.newObj()
+				if derr := back.UnmarshalSSZ(ref); derr == nil {
+					if w.strict {
+						return fmt.Errorf("%s: the encoding of an over-limit value (%v), %d bytes from an encoder without limits, is accepted by the decoder", p.Type, limitsOf(w, obj), len(ref))
+					}
+					c.Class("nonstrict:over-limit-accepted-on-decode")
+				} else {
+					c.Class("over-limit:ref-encoded-decode-rejects")
+				}
+			}
 			return nil
 		}
 		back := w.newObj()
@@ -178,6 +191,12 @@ func runC14Value(p c14Value, c *stats.Case) error {
 	}
 	if err != nil {
 		return fmt.Errorf("%s: in-limit value fails to encode: %v", p.Type, err)
+	}
+	if w.fill == nil {
+		if ref := refEncode(obj); !bytes.Equal(ref, enc) {
+			return fmt.Errorf("%s: encoding differs from the reference SSZ encoder: code %x reference %x", p.Type, clipHex(enc), clipHex(ref))
+		}
+		c.Class("ref-encoder-agrees")
 	}
 	back := w.newObj()
 	if err := back.UnmarshalSSZ(append([]byte{}, enc...)); err != nil {
